@@ -61,6 +61,9 @@ class Note(object):
         """
         if dynamics is None:
             dynamics = {}
+        else:
+            # do not write velocity/channel into the caller's dict
+            dynamics = dict(dynamics)
 
         if velocity is not None:
             dynamics["velocity"] = velocity
